@@ -197,6 +197,10 @@ func (t *IpTrie) DeleteKey(cidr ip.CIDR, key model.Key) {
 	}
 	node := val.(*IPTrieNode)
 	if len(node.keys) == 1 {
+		if node.keys[0].Value() != key {
+			// The only key stored for this CIDR is a different one: nothing to delete.
+			return
+		}
 		t.existingCidrs.Discard(cidr)
 		ptrie.Delete(patricia.Prefix(cidrb))
 	} else {
